@@ -3,8 +3,11 @@
 
   Full (for all inputs): nano_roundtrip, atoi_itoa, sep_convert, encoder_stream (with
   Tiles), part_never_exceeds, decoder_splits, C13_roundtrip, C13_roundtrip_mem, truncated_request,
-  truncated_header_refused, refuse_malformed, no_part_beyond_length, index_overflow_refused,
+  truncated_header_refused, refuse_malformed, unsafe_name_refused, no_part_beyond_length,
+  index_overflow_refused,
   extra_trailing_ignored, metalen_nonpositive_refused, metalen_short_refused.
+  Theorems about routeData that end in Prepare/Receive carry the hypothesis `SafeNames` (the
+  data route's confinement check, http/server.go findUnsafePartName).
   Partial: refuse_malformed_partial (hypothesis `MetaLenExact`: X-STS-MetaLen equals the real
   header length) — the negation of the full statement has the witnesses
   metalen_oversized_shifts (S11) ; receive_old_records_short (F5, repaired) and
@@ -744,6 +747,12 @@ theorem headerWindow_exact (hdr rest : List UInt8) (br : Bool) (h : 0 < hdr.leng
   have : ((hdr.length : Int) > 0) := by omega
   simp only [headerWindow, this, if_true, Int.toNat_natCast, List.take_left', List.drop_left']
 
+/-- hypothesis on the names of a payload (http/server.go findUnsafePartName, checked by the
+    data route before `Prepare`): every part's separator-converted name, its raw rename
+    target (if any) and its converted predecessor (if any) is a safe relative path. -/
+def SafeNames (sep : Option Char) (ds : List Desc) : Prop :=
+  (ds.map (Desc.conv sep)).all Desc.safe = true
+
 /-- the round-trip hypothesis on the trusted header codec: the stream decoder returns the
     encoded list, whatever follows it. -/
 def Codec.RoundTrip (c : Codec) : Prop := ∀ ds rest, c.dec (c.enc ds ++ rest) = some ds
@@ -758,19 +767,22 @@ def Codec.HdrLenOk (c : Codec) (ds : List Desc) : Prop :=
     model and either way the stream ends after the last part: the server answers 200,
     `Prepare` sees the descriptors in order (name/prev separator-converted, everything else
     field by field as encoded), and `Receive` number i is handed descriptor i and exactly
-    the bytes `file_i[beg_i, end_i)`. -/
+    the bytes `file_i[beg_i, end_i)`. Hypothesis `SafeNames`: the names pass the data route's
+    confinement check (otherwise the request is refused, `unsafe_name_refused`). -/
 theorem C13_roundtrip (c : Codec) (hrt : c.RoundTrip) (rk : RecvKind) (fill : UInt8)
     (ds : List Desc) (files : List (Option (List UInt8))) (sizes : List Nat) (sep : Option Char)
     (br : Bool) (hne : ds ≠ []) (hok : PartsOk ds files) (hk : ∀ k ∈ sizes, 0 < k)
-    (hlen : (slices ds files).flatten.length ≤ sizes.length) (hh : c.HdrLenOk ds) :
+    (hlen : (slices ds files).flatten.length ≤ sizes.length) (hh : c.HdrLenOk ds)
+    (hs : SafeNames sep ds) :
     routeData c rk false true (metaLenHeader c ds) sep 0 ⟨transmitBody c fill ds files sizes, br⟩ =
       ⟨.ok200, some (ds.map (Desc.conv sep)), (ds.map (Desc.conv sep)).zip (slices ds files)⟩ := by
   obtain ⟨_, _, _, h4, h5⟩ := encoder_stream fill ds files sizes hne hok hk
   have hbody : transmitBody c fill ds files sizes = c.enc ds ++ (slices ds files).flatten := by
     simp only [transmitBody]; rw [h4 (h5 hlen)]
   have hdec : c.dec (c.enc ds) = some ds := by simpa using hrt ds []
+  unfold SafeNames at hs
   simp only [routeData, metaLenHeader, atoi_itoa _ hh.2, hbody, Bool.not_true, Bool.false_eq_true,
-    if_false, newDecoder, headerWindow_exact _ _ br hh.1, hdec]
+    if_false, newDecoder, headerWindow_exact _ _ br hh.1, hdec, hs]
   have := routeLoop_exact rk _ _ (fits_slices sep ds files hok) 0 [] br
   simp only [List.append_nil] at this
   rw [this]
@@ -856,7 +868,9 @@ theorem no_part_beyond_length (c : Codec) (rk : RecvKind) (old hasBody : Bool) (
     · split
       · simp
       · simp
-      · exact routeLoop_no_part_beyond rk _ x 0 _
+      · split
+        · simp
+        · exact routeLoop_no_part_beyond rk _ x 0 _
 
 /-- `index_overflow_refused`: a decoder that hands out more readers than the header has
     parts never gets a 200; when every announced part arrived complete the answer is 400
@@ -951,7 +965,8 @@ theorem truncSpec_prefix (ds : List Desc) (bs : List (List UInt8)) (m i : Nat) :
     part was touched, and no call ever got a byte of another part. -/
 theorem truncated_request (c : Codec) (hrt : c.RoundTrip) (ds : List Desc)
     (files : List (Option (List UInt8))) (sep : Option Char) (br : Bool) (m : Nat)
-    (hok : PartsOk ds files) (hh : c.HdrLenOk ds) (hm : m < (slices ds files).flatten.length) :
+    (hok : PartsOk ds files) (hh : c.HdrLenOk ds) (hm : m < (slices ds files).flatten.length)
+    (hs : SafeNames sep ds) :
     let r := routeData c .stage false true (metaLenHeader c ds) sep 0
       ⟨c.enc ds ++ (slices ds files).flatten.take m, br⟩
     ∃ k, k < ds.length ∧ r.status = .partial206 k ∧ r.prepared = some (ds.map (Desc.conv sep)) ∧
@@ -961,8 +976,9 @@ theorem truncated_request (c : Codec) (hrt : c.RoundTrip) (ds : List Desc)
       ∀ x ∈ r.received, ∃ b, (x.1, b) ∈ (ds.map (Desc.conv sep)).zip (slices ds files) ∧ x.2 <+: b := by
   have hdec : c.dec (c.enc ds) = some ds := by simpa using hrt ds []
   have hfit := fits_slices sep ds files hok
+  unfold SafeNames at hs
   simp only [routeData, metaLenHeader, atoi_itoa _ hh.2, Bool.not_true, Bool.false_eq_true,
-    if_false, newDecoder, headerWindow_exact _ _ br hh.1, hdec, routeLoop_trunc _ _ hfit]
+    if_false, newDecoder, headerWindow_exact _ _ br hh.1, hdec, routeLoop_trunc _ _ hfit, hs]
   obtain ⟨k, h1, h2, h3, h4, h5, h6⟩ := truncSpec_short _ _ hfit m 0 hm
   refine ⟨k, by simpa using h1, by simpa using h2, trivial, h3, h4, h5, h6, truncSpec_prefix _ _ m 0⟩
 
@@ -998,7 +1014,8 @@ theorem metalen_short_refused (c : Codec) (hpf : c.PrefixFree) (rk : RecvKind) (
     the first non-empty part fails: 206 with count 0, no byte written. -/
 theorem metalen_nonpositive_refused (c : Codec) (sep : Option Char) (s : Stream) (ml : List Char)
     (n : Int) (d : Desc) (ds : List Desc) (hml : parseInt64? ml = some n) (h0 : n ≤ 0)
-    (hdec : c.dec s.data = some (d :: ds)) (hlen : 0 < d.len) (hbeg : 0 ≤ d.beg) :
+    (hdec : c.dec s.data = some (d :: ds)) (hlen : 0 < d.len) (hbeg : 0 ≤ d.beg)
+    (hs : SafeNames sep (d :: ds)) :
     routeData c .stage false true ml sep 0 s =
       ⟨.partial206 0, some ((d :: ds).map (Desc.conv sep)), [(Desc.conv sep d, [])]⟩ := by
   have hn : ¬ (n > 0) := by omega
@@ -1007,8 +1024,10 @@ theorem metalen_nonpositive_refused (c : Codec) (sep : Option Char) (s : Stream)
   have h1 : ¬ (RecvKind.stage ≠ .stub ∧ (Desc.conv sep d).beg < 0) := by rw [hb]; omega
   have h2 : ¬ ((Desc.conv sep d).len < 0) := by rw [hl]; omega
   have h3 : ¬ ((Desc.conv sep d).len.toNat ≤ 0) := by rw [hl]; omega
+  unfold SafeNames at hs
   simp only [routeData, hml, Bool.not_true, Bool.false_eq_true, if_false, newDecoder, headerWindow,
-    hn, hdec, List.map_cons, routeLoop, receive, h1, copyPart, h2, List.length_nil, h3]
+    hn, hdec, hs]
+  simp only [List.map_cons, routeLoop, receive, h1, copyPart, h2, List.length_nil, h3, if_false]
   have h4 : ¬ ((0 : Int) = (Desc.conv sep d).len) := by rw [hl]; omega
   cases s.broken <;> simp [h4]
 
@@ -1080,6 +1099,22 @@ theorem metalen_oversized_shifts :
     the real header (what `Transmit` sends). -/
 def MetaLenExact (c : Codec) (ds : List Desc) (ml : List Char) : Prop := ml = metaLenHeader c ds
 
+/-- `unsafe_name_refused` (after `fix: refuse file names … that leave the receiver's
+    directories`): when the decoded header contains a part whose converted name, raw rename
+    target or converted predecessor is not a safe relative path (empty name, absolute, a
+    `..` segment, nothing but `.`), the request is answered 400 — whatever the body, meta-len
+    permitting the header to decode — and neither `Prepare` nor `Receive` is called. -/
+theorem unsafe_name_refused (c : Codec) (rk : RecvKind) (ml : List Char) (n : Int) (sep : Option Char)
+    (x : Nat) (s : Stream) (ds : List Desc) (hml : parseInt64? ml = some n)
+    (hdec : c.dec (headerWindow n s).1 = some ds) (hu : ¬ SafeNames sep ds) :
+    routeData c rk false true ml sep x s = ⟨.bad400, none, []⟩ := by
+  unfold SafeNames at hu
+  have hu' : (ds.map (Desc.conv sep)).all Desc.safe = false := by
+    cases h : (ds.map (Desc.conv sep)).all Desc.safe
+    · rfl
+    · exact absurd h hu
+  simp [routeData, hml, newDecoder, hdec, hu']
+
 /-- `refuse_malformed`, the part that holds without hypothesis on the sender: no body, a
     meta-len header that is not a decimal `int`, or a header window that does not decode
     ⇒ 400 / 400 / 500, and nothing is prepared or received. -/
@@ -1100,7 +1135,8 @@ theorem refuse_malformed (c : Codec) (rk : RecvKind) (hasBody : Bool) (ml : List
     every `Receive` got a prefix of its own slice. -/
 theorem refuse_malformed_partial (c : Codec) (hrt : c.RoundTrip) (hpf : c.PrefixFree) (ds : List Desc)
     (files : List (Option (List UInt8))) (sep : Option Char) (br : Bool) (ml : List Char)
-    (hml : MetaLenExact c ds ml) (hok : PartsOk ds files) (hh : c.HdrLenOk ds) :
+    (hml : MetaLenExact c ds ml) (hok : PartsOk ds files) (hh : c.HdrLenOk ds)
+    (hs : SafeNames sep ds) :
     (∀ k, k < (c.enc ds).length →
       routeData c .stage false true ml sep 0 ⟨(c.enc ds).take k, br⟩ = ⟨.err500, none, []⟩) ∧
     (∀ m, m < (slices ds files).flatten.length →
@@ -1109,7 +1145,7 @@ theorem refuse_malformed_partial (c : Codec) (hrt : c.RoundTrip) (hpf : c.Prefix
       ∀ x ∈ r.received, ∃ b, (x.1, b) ∈ (ds.map (Desc.conv sep)).zip (slices ds files) ∧ x.2 <+: b) := by
   rw [hml]
   refine ⟨fun k hk => truncated_header_refused c hpf .stage ds sep br k hk hh, fun m hm => ?_⟩
-  obtain ⟨k, h1, h2, _, _, _, _, _, h8⟩ := truncated_request c hrt ds files sep br m hok hh hm
+  obtain ⟨k, h1, h2, _, _, _, _, _, h8⟩ := truncated_request c hrt ds files sep br m hok hh hm hs
   exact ⟨⟨k, h1, h2⟩, h8⟩
 
 
@@ -1158,6 +1194,27 @@ example : decodeParts [exA, exB] [[1, 1, 1, 1], [5, 5, 5]] ⟨[11, 12, 13, 20, 2
     [([11, 12, 13], .eof), ([20, 21], .eof)] :=
   decoder_splits [exA, exB] [[11, 12, 13], [20, 21]] ⟨⟨by decide, by decide⟩, ⟨by decide, by decide⟩, trivial⟩
     _ ⟨⟨by decide, by decide⟩, ⟨by decide, by decide⟩, trivial⟩ [] false
+
+/-- the example payload passes the confinement check with either separator header. -/
+example : SafeNames (some '/') [exA, exB] ∧ SafeNames (some '\\') [exA, exB] ∧ SafeNames none [exA, exB] := by
+  unfold SafeNames; decide
+
+/-- names the data route refuses: a predecessor `..`, a name that climbs out, an absolute
+    rename target, an empty name, a name that is only `.`; and `a/../b` is accepted because
+    the separator conversion cleans it to `b` first (without a separator header it is not). -/
+example : safeRel ['.', '.'] = false ∧ safeRel ['.', '.', '/', 'x'] = false ∧ safeRel ['/', 'a'] = false ∧
+    safeRel [] = false ∧ safeRel ['.', '/', '.'] = false ∧ safeRel ['a', '/', '.', '/', 'b'] = true ∧
+    safeRel (sepConvert '/' ['a', '/', '.', '.', '/', 'b']) = true ∧ safeRel ['a', '/', '.', '.', '/', 'b'] = false := by
+  decide
+
+/-- a conforming body whose second part names `..` as predecessor: 400, no Prepare, no Receive. -/
+example :
+    let a : Desc := ⟨"a", "", "", "h", 0, 0, 2, 0, 2⟩
+    let b : Desc := ⟨"b", "", "..", "h", 0, 0, 2, 0, 2⟩
+    let c : Codec := ⟨fun _ => [0xAA, 0xBB],
+      fun bs => match bs with | 0xAA :: 0xBB :: _ => some [a, b] | _ => none, fun _ => false⟩
+    routeData c .stage false true ['2'] (some '/') 0 ⟨[0xAA, 0xBB, 1, 2, 3, 4], false⟩ = ⟨.bad400, none, []⟩ := by
+  decide
 
 /-- body cut after 4 of 5 part bytes: 206, count 1, part b got a prefix of its own slice. -/
 example : (routeLoop .stage [exA, exB] 0 0 ⟨[11, 12, 13, 20], false⟩) =
